@@ -104,7 +104,8 @@ def afm_model(g, n):
     rng = g.rng
     n = max(n, 2)
     names = afm_names(g, n)
-    root = g.tree(n, names=names, kinds=("mandatory", "optional", "alternative", "or", "mutex", "card", "nn"), abstract=False)
+    root = g.tree(n, names=names, kinds=("mandatory", "optional", "alternative", "or", "mutex", "card", "nn"), abstract=False,
+                  wide=lambda l, j: f"{l}W{j}w")
     for f in spec.spec_features(root):
         if rng.random() < 0.3:
             for an in rng.sample(["cost", "size2", "kind", "w"], rng.randint(1, 2)):
